@@ -162,7 +162,25 @@ func c20Index(lines []string) (leaves []c20Leaf) {
 			body = trimmed[2:]
 			indent += 2
 			if _, _, _, ok := c20SplitKey(body); !ok {
-				// Scalar list item.
+				// Scalar list item; only the DDR address hints are fields
+				// of the enumeration.
+				pkey := ""
+				if len(stack) >= 2 {
+					pkey = stack[len(stack)-2].name
+				}
+				kind := map[string]string{"ipv4_hints": "hint4", "ipv6_hints": "hint6"}[pkey]
+				if kind != "" {
+					p := path()
+					sect := p
+					if i := strings.IndexAny(p, ".["); i >= 0 {
+						sect = p[:i]
+					}
+					leaves = append(leaves, c20Leaf{
+						Path: p, Key: pkey, Val: c20Unquote(body), Kind: kind, Line: li,
+						Col: indent, Sect: sect,
+					})
+				}
+
 				continue
 			}
 		} else {
@@ -217,9 +235,13 @@ const c20Missing = "<missing>"
 // failure class of the statement.
 var (
 	c20IntVals = []string{"0", "-1", "1", "32", "33", "128", "129", "65535", "65536",
-		"9223372036854775807", c20Missing}
-	c20DurVals  = []string{"0s", "-1s", "1ns", "1s", "2562047h47m16.854775807s", c20Missing}
-	c20SizeVals = []string{"0B", "-1B", "1B", "65535B", "65536B", "64KB", "65537B", "2147483647B",
+		"9223372036854775807", "9223372036854775808", "18446744073709551615", c20Missing}
+	// DDR address hints: an address of the other family, an IPv4-mapped IPv6
+	// address, the unspecified address, no hint.
+	c20Hint4Vals = []string{"::1", "::ffff:1.2.3.4", "0.0.0.0", c20Missing}
+	c20Hint6Vals = []string{"1.2.3.4", "::ffff:1.2.3.4", "::", c20Missing}
+	c20DurVals   = []string{"0s", "-1s", "1ns", "1s", "2562047h47m16.854775807s", c20Missing}
+	c20SizeVals  = []string{"0B", "-1B", "1B", "65535B", "65536B", "64KB", "65537B", "2147483647B",
 		"2147483648B", "2GB", "18446744073709551615B", c20Missing}
 	c20BoolVals = []string{"true", "false", c20Missing}
 )
@@ -239,9 +261,12 @@ var (
 var c20ExtraVals = map[string][]string{
 	"ratelimit.connection_limit.stop":   {"2", "3", "4", "10"},
 	"ratelimit.connection_limit.resume": {"2"},
-	"dns.tcp_idle_timeout":              {"1h49m13.5s", "1h49m13.6s"},
-	"dns.max_udp_response_size":         {"511B", "512B", "513B", "2048B", "4096B", "4097B"},
-	"check.kv.ttl":                      {"999us", "1ms", "9s", "10s", "24h", "24h0m1s"},
+	// A chan struct{} buffer costs no memory per slot, so these are safe to
+	// build; 2^63 and 2^64-1 are in the general integer alphabet.
+	"ratelimit.tcp.max_pipeline_count": {"2147483648", "4294967296", "4611686018427387904"},
+	"dns.tcp_idle_timeout":             {"1h49m13.5s", "1h49m13.6s"},
+	"dns.max_udp_response_size":        {"511B", "512B", "513B", "2048B", "4096B", "4097B"},
+	"check.kv.ttl":                     {"999us", "1ms", "9s", "10s", "24h", "24h0m1s"},
 }
 
 func c20Values(l *c20Leaf) (vals []string) {
@@ -261,6 +286,10 @@ func c20Values(l *c20Leaf) (vals []string) {
 		vals = c20SizeVals
 	case "bool":
 		vals = c20BoolVals
+	case "hint4":
+		vals = c20Hint4Vals
+	case "hint6":
+		vals = c20Hint6Vals
 	case "enum":
 		vals = append([]string{}, c20Enums[l.Path]...)
 		vals = append(vals, "", "bogus", c20Missing)
@@ -349,7 +378,7 @@ func (w *c20World) apply(c c20Case) (text string, err error) {
 			continue
 		}
 		v := m.Value
-		if l.Kind == "enum" || v == "" {
+		if l.Kind == "enum" || l.Kind == "hint4" || l.Kind == "hint6" || v == "" {
 			v = "'" + v + "'"
 		}
 		lines[l.Line] = lines[l.Line][:l.Col] + v
@@ -861,7 +890,7 @@ func (w *c20World) mutable() (ls []*c20Leaf) {
 	for i := range w.leaves {
 		l := &w.leaves[i]
 		switch l.Kind {
-		case "int", "duration", "size", "enum":
+		case "int", "duration", "size", "enum", "hint4", "hint6":
 			ls = append(ls, l)
 		}
 	}
